@@ -330,6 +330,8 @@ def rule_python_messages(ctx):
 
 def run(ctx):
     rule_python_messages(ctx)
+    from . import alloczero
+    alloczero.rule_zeroed_records(ctx, 'R07.10')
     rule_ownership(ctx)
     rule_error_path_state(ctx)
     rule_io_discipline(ctx)
